@@ -1,5 +1,5 @@
 import DtsVerif.Props.C01
-import DtsVerif.Props.Scatter
+import DtsVerif.Props.ScatterOrder
 import DtsVerif.Props.C05
 import Mathlib.Tactic.FieldSimp
 /-!
